@@ -176,9 +176,7 @@ const MAX_BFS_DEPTH: usize = 32;
 
 /// Check if an edge type is allowed for access control traversal.
 fn is_allowed_edge_type(edge_type: &str) -> bool {
-    ALLOWED_TRAVERSAL_EDGES
-        .iter()
-        .any(|&allowed| edge_type.starts_with(allowed))
+    ALLOWED_TRAVERSAL_EDGES.contains(&edge_type)
 }
 
 impl AccessController {
